@@ -456,11 +456,13 @@ class FromPandas(PartitionsFiltered, BlockwiseIO):
     def _get_lengths(self) -> tuple | None:
         if self._pd_length_stats is None:
             locations = self._locations()
-            self._pd_length_stats = tuple(
-                offset - locations[i]
-                for i, offset in enumerate(locations[1:])
-                if not self._filtered or i in self._partitions
-            )
+            lengths = [
+                offset - locations[i] for i, offset in enumerate(locations[1:])
+            ]
+            if self._filtered:
+                # in the order (and multiplicity) of the selection
+                lengths = [lengths[i] for i in self._partitions]
+            self._pd_length_stats = tuple(lengths)
         return self._pd_length_stats
 
     def _simplify_up(self, parent, dependents):
